@@ -327,7 +327,7 @@ theorem remove_unfold (c : Cfg) (v : VS) (i : Nat) (w : W) :
     remove c v i w =
       if ¬ i < v.len then (v, w, none)
       else match v.read i with
-        | none => (v, w.flag "remove read an uninitialised slot", none)
+        | none => (v, w.flag "remove: read of an uninitialised slot", none)
         | some ret =>
           let p := v.copy c (i + 1) i (v.len - i - 1) w
           ({ p.1 with len := v.len - 1 }, p.2.moved ret, some ret) := rfl
@@ -380,10 +380,10 @@ theorem swapRemove_unfold (c : Cfg) (v : VS) (i : Nat) (w : W) :
     swapRemove c v i w =
       if ¬ i < v.len then (v, w, none)
       else match v.read (v.len - 1) with
-        | none => (v, w.flag "swap_remove read an uninitialised slot", none)
+        | none => (v, w.flag "swap_remove: read of an uninitialised slot", none)
         | some last =>
           match ({ v with len := v.len - 1 } : VS).read i with
-          | none => ({ v with len := v.len - 1 }, w.flag "swap_remove read an uninitialised slot", none)
+          | none => ({ v with len := v.len - 1 }, w.flag "swap_remove: read of an uninitialised slot", none)
           | some old =>
             let p := ({ v with len := v.len - 1 } : VS).write c i last w
             (p.1, p.2.moved old, some old) := rfl
